@@ -6,6 +6,7 @@ import Driver.Dict
 import Driver.BlockAlloc
 import Driver.EventQueue
 import Driver.Dispatch
+import Driver.Emit
 
 def main (args : List String) : IO UInt32 := do
   match args with
@@ -17,4 +18,5 @@ def main (args : List String) : IO UInt32 := do
   | ["blockalloc"] => Driver.BlockAlloc.main; return 0
   | ["eventqueue"] => Driver.EventQueue.main; return 0
   | ["dispatch"] => Driver.Dispatch.main; return 0
+  | ["emit"] => Driver.Emit.main; return 0
   | _ => IO.eprintln "usage: driver <area>"; return 2
